@@ -60,7 +60,7 @@ Proof.
 Qed.
 
 Example C16_computed :
-  exists p, read_str None None None (s_ "(a [b ¬(¬ ""]"" ; ) comment") = Err (VLispErr (VGoErr (s_ "expected ']', got EOF")) p).
+  exists p, read_str None None None (s_ "(a [b " ++ [RAWQ] ++ s_ "(" ++ [RAWQ] ++ s_ " ""]"" ; ) comment") = Err (VLispErr (VGoErr (s_ "expected ']', got EOF")) p).
 Proof. eexists. vm_compute. reflexivity. Qed.
 
 Print Assumptions C16_incomplete_names_innermost_closer.
